@@ -163,7 +163,7 @@ def build_traces(path, tier, seed):
 def run(tier, seed):
     rep = Report("C14", tier, seed)
     wd = workdir("C14")
-    dmax, nmin, nmax, nticks = (6, 4, 16, 4) if tier == "quick" else (8, 4, 22, 4)
+    dmax, nmin, nmax, nticks = (6, 4, 16, 4) if tier == "quick" else (10, 4, 30, 4)
     tab = os.path.join(wd, "table.txt")
     with warnings.catch_warnings():
         warnings.simplefilter("ignore")
